@@ -12,7 +12,7 @@ from zlib import compress, decompress
 
 import PIL
 
-from .. import _ctlseqs as ctlseqs
+from .. import _ctlseqs as ctlseqs, utils
 
 # These sequences are used during performance-critical operations that occur often
 from .._ctlseqs import (
@@ -300,7 +300,7 @@ class KittyImage(GraphicsImage):
 
             # The graphics query for support detection messes up iTerm2's window title
             if get_terminal_name_version()[0] == "iterm2":
-                return False
+                return False  # definite; the name wasn't derived from a query if disabled
 
             # Kitty graphics query + terminal attribute query
             # The second query is to speed up the query since most (if not all)
@@ -334,6 +334,11 @@ class KittyImage(GraphicsImage):
                 elif name == "konsole":
                     cls._TERM, cls._TERM_VERSION = name, version or ""
                     cls._supported = True
+
+            # A negative status determined while queries are disabled is not definite
+            if not (cls._supported or utils._queries_enabled):
+                cls._supported = None
+                return False
 
         return cls._supported
 
